@@ -309,7 +309,7 @@ class Effects:
                 for prm in params[i:]:
                     m.setdefault(prm, []).append(('elem', a.value))
                 if g.vararg:
-                    m.setdefault(g.vararg, []).append(('elem', a.value))
+                    m.setdefault(g.vararg, []).append(('pack', a.value))
                 i = len(params)
                 continue
             if i < len(params):
@@ -319,8 +319,10 @@ class Effects:
             i += 1
         for k in call.keywords:
             if k.arg is None:
-                for prm in g.all_params:
+                for prm in g.params + g.kwonly:
                     m.setdefault(prm, []).append(('elem', k.value))
+                if g.kwarg:
+                    m.setdefault(g.kwarg, []).append(('packelem', k.value))
             elif k.arg in g.params or k.arg in g.kwonly:
                 m.setdefault(k.arg, []).append(k.value)
             elif g.kwarg:
@@ -335,6 +337,8 @@ class Effects:
             if how == 'elem':  # *seq / **map unpacked into parameters
                 both = v[0] | v[1]
                 return (both, both)
+            if how == 'packelem':  # **map re-packed into the callee's **kw
+                return (FRESH, v[1])
             return (FRESH, v[0] | v[1])  # packed into *args / **kw container
         return self.alias2(fi, a, state)
 
@@ -421,6 +425,18 @@ class Effects:
                 continue
             if name.startswith('builtins.') and name[9:10].isupper():
                 continue  # exception constructors
+            last = name.rsplit('.', 1)[-1]
+            if last[:1].isupper() and not last.isupper():
+                # a class: the new object may keep references to its arguments
+                r = FRESH
+                for a in call.args:
+                    v = self.alias2(fi, a, state)
+                    r |= v[0] | v[1]
+                for k in call.keywords:
+                    v = self.alias2(fi, k.value, state)
+                    r |= v[0] | v[1]
+                res = _u(res, (FRESH, r))
+                continue
             r = FRESH
             for a in call.args:
                 v = self.alias2(fi, a, state)
